@@ -104,6 +104,13 @@ def run_impl(c):
                     b = Array(f"uint{c['w']}")
                     with open(path, 'rb') as fh: b.fromfile(fh)
                     out.append(b.tolist())
+                    # fromfile(f, n): exactly the first n items, n = 0 .. len (an Array that already holds items keeps them)
+                    part = []
+                    for n in sorted({0, 1, len(c['items']) // 2, len(c['items'])}):
+                        d = Array(f"uint{c['w']}", c['items'][:1])
+                        with open(path, 'rb') as fh: d.fromfile(fh, n)
+                        part.append([n, d.tolist()])
+                    out.append(part)
                 finally: os.unlink(path)
             return out
         return attempt(f)
@@ -176,6 +183,9 @@ def oracle(c, obs):
         if obs[1][0] != data: return f"Array data {obs[1][0]!r} != concatenation {data!r}"
         if obs[1][1] != pad_bytes(data) or obs[1][2] != pad_bytes(data): return f"Array.tobytes/tofile differ from padded data"
         if len(obs[1]) > 3 and obs[1][3] != c['items']: return f"Array.fromfile read back {obs[1][3]} != {c['items']}"
+        if len(obs[1]) > 4:
+            for n, got in obs[1][4]:
+                if got != c['items'][:1] + c['items'][:n]: return f"Array('uint{c['w']}', {c['items'][:1]}).fromfile(f, {n}) gave {got}, the file holds {c['items']}"
         return None
     if op == 'tofile_chunk':
         if obs == ('err', 'KeyError'): return "tofile no longer holds its chunk size as a single literal: it cannot be run with a small chunk size (tie broken)"
